@@ -33,7 +33,7 @@ LEVEL_TEXT = ("Each of ~30 single faults (forcing not covering the window, frame
               "illegal subgrids) is injected into each of 8 base scenarios (quick) plus 400 random bases (thorough); the real start-up must refuse every one before the first step and write no record.")
 LEVEL_NOTE = "Single faults only. 'Refused' = SystemExit with a non-zero code or any other exception raised before the first Model.update; the fault-free base must complete, otherwise the case is void and not counted."
 RULE = ("case = (base, fault). Non-trivial: the base ran and the fault is really present in the files/configuration written (e.g. the unsorted frame times are read back); distinct by (base, fault).")
-MANDATORY = ["forcing_files_with_different_time_units", "refused_before_first_step", "base_forward", "base_reversed", "base_multifile", "base_continuous", "subprocess_exit_status_checked", "fault_presence_verified", "fault_written_over_a_valid_setup", "base_with_legal_negative_subgrid", "subgrid_fault_with_negative_limits"]
+MANDATORY = ["fault_in_a_version_1_configuration", "fault_in_a_warm_started_setup", "forcing_files_with_different_time_units", "refused_before_first_step", "base_forward", "base_reversed", "base_multifile", "base_continuous", "subprocess_exit_status_checked", "fault_presence_verified", "fault_written_over_a_valid_setup", "base_with_legal_negative_subgrid", "subgrid_fault_with_negative_limits"]
 ASSUMPTIONS = ["single faults (no combinations)"]
 TIMEOUT = {"quick": 1200, "thorough": 3500}
 
@@ -42,7 +42,8 @@ FAULTS = ["forcing_ends_early", "forcing_starts_late", "forcing_starts_late_subs
           "release_without_position", "release_with_X_only", "release_with_Y_only", "missing_config_file", "missing_grid_file", "missing_forcing_file", "missing_release_file",
           "missing_tracker_section", "missing_time_section", "missing_release_section", "missing_output_section", "missing_forcing_section",
           "subgrid_i0_lt_1", "subgrid_i1_gt_max", "subgrid_i0_ge_i1", "subgrid_j0_lt_1", "subgrid_j1_gt_max", "subgrid_j0_ge_j1", "subgrid_i0_eq_i1",
-          "subgrid_i0_far_negative", "subgrid_j0_far_negative", "subgrid_negative_i1_le_i0", "subgrid_negative_j1_le_j0", "subgrid_i1_minus_imax"]
+          "subgrid_i0_far_negative", "subgrid_j0_far_negative", "subgrid_negative_i1_le_i0", "subgrid_negative_j1_le_j0", "subgrid_i1_minus_imax",
+          "v1_missing_grid_file", "v1_missing_forcing_file", "warm_start_stop_not_after_restart_time"]
 
 
 def bases(tier: str, seed: int) -> list[dict[str, Any]]:
@@ -81,6 +82,8 @@ def gen_cases(tier: str, seed: int) -> list[dict[str, Any]]:
         for f in FAULTS:
             if f in ("releases_all_before_start", "releases_straddle_window") and b["cont"]:
                 continue  # not a fault: in continuous mode rows before the start keep releasing at every tick inside the window
+            if f.startswith("v1_") and b["reversed"]:
+                continue  # the legacy spelling is exercised for forward runs
             cases.append(dict(base=b, fault=f, subprocess=(b["id"] * 7 + FAULTS.index(f)) % (29 if tier == "quick" else 97) == 0))
     return cases
 
@@ -193,13 +196,55 @@ def one_run(b: dict[str, Any], fault: str | None, wd: Path, sub: bool):
     world = W.write_world(wd / "world", wspec)
     conf = build_config(run, wd, world)
     apply_conf_fault(conf, fault, b, wd)
+    written = conf
+    if fault == "warm_start_stop_not_after_restart_time":
+        # restart from the output of the valid run (kept as warm_from.nc) with the original start left in the file and a stop time
+        # that the restart time (the file's last record, step ns - 1) has already passed
+        sg_ = -1 if b["reversed"] else 1
+        conf["warm_start"] = dict(filename=str(wd / "warm_from.nc"), variables=[])
+        conf["time"]["stop"] = str(tadd(run["start"], sg_ * 2 * b["dt"]))
+        conf["output"]["filename"] = str(wd / "out_restart.nc")
+    if fault and fault.startswith("v1_"):
+        # the same set-up in the legacy (version 1) vocabulary
+        rf = Path(conf["release"]["release_file"])
+        lines = rf.read_text().splitlines()
+        names = lines[0].split()
+        rf.write_text("\n".join(lines[1:]) + "\n")  # v1 names the columns in the configuration
+        gf = str(wd / "no_such_grid.nc") if fault == "v1_missing_grid_file" else str(conf["grid"]["filename"])
+        ff = str(wd / "no_such_forcing_*.nc") if fault == "v1_missing_forcing_file" else str(conf["forcing"]["filename"])
+        written = dict(time_control=dict(start_time=conf["time"]["start"], stop_time=conf["time"]["stop"]),
+                       files=dict(particle_release_file=str(rf), output_file=str(conf["output"]["filename"])),
+                       gridforce=dict(module="ladim1.gridforce.ROMS", input_file=ff, gridfile=gf) if b["id"] % 2 else dict(module="ladim1.gridforce.ROMS"),
+                       numerics=dict(dt=b["dt"], advection="EF", diffusion=0.0),
+                       particle_release=dict(variables=names, release_time="time", particle_variables=[]),
+                       output_variables=dict(outper=[b["dt"], "s"], format="NETCDF4", instance=["pid", "X", "Y", "Z"], particle=[],
+                                             pid=dict(ncformat="i4", long_name="pid"), X=dict(ncformat="f8", long_name="X"), Y=dict(ncformat="f8", long_name="Y"), Z=dict(ncformat="f8", long_name="Z")))
+        if not b["id"] % 2:  # legacy layout: file names in the `files` section
+            written["files"].update(input_file=ff, gridfile=gf)
+        if b["cont"]:
+            written["particle_release"].update(release_type="continuous", release_frequency=[b["freq"] * b["dt"], "s"])
+        if "subgrid" in conf.get("grid", {}):
+            written["gridforce"]["subgrid"] = conf["grid"]["subgrid"]
+    v1_valid_runs = True
+    if fault and fault.startswith("v1_"):
+        # the legacy rendering itself must be a valid set-up: the same file with the existing files named has to run
+        import copy as _copy  # noqa: PLC0415
+
+        okc = _copy.deepcopy(written)
+        sec = okc["gridforce"] if "input_file" in okc["gridforce"] else okc["files"]
+        sec["input_file"], sec["gridfile"] = str(conf["forcing"]["filename"]), str(conf["grid"]["filename"])
+        okc["files"]["output_file"] = str(wd / "out_v1_ok.nc")
+        with open(wd / "ladim_v1_ok.yaml", "w", encoding="utf-8") as f:
+            yaml.safe_dump(okc, f, sort_keys=False)
+        r_ok = run_ladim(wd / "ladim_v1_ok.yaml", cwd=wd)
+        v1_valid_runs = bool(r_ok.ok and (wd / "out_v1_ok.nc").exists())
     cf = wd / "ladim.yaml"
     with open(cf, "w", encoding="utf-8") as f:
-        yaml.safe_dump(conf, f, sort_keys=False)
+        yaml.safe_dump(written, f, sort_keys=False)
     if fault == "missing_config_file":
         cf = wd / "no_such_config.yaml"
     # --- verify the fault is really in what ladim will read
-    present = True
+    present = v1_valid_runs
     if fault in ("frames_unsorted_in_file", "frames_unsorted_across_files", "frame_duplicated_across_files", "forcing_ends_early", "forcing_starts_late",
                  "forcing_starts_late_substep", "forcing_ends_early_substep"):
         ts = []
@@ -257,7 +302,15 @@ def run_case(case: dict[str, Any], wd: Path) -> dict[str, Any]:
 
         shutil.rmtree(wd / "run" / "world", ignore_errors=True)
         for f_ in (wd / "run").glob("out*.nc"):
+            if fault == "warm_start_stop_not_after_restart_time" and f_.name == "out.nc":
+                f_.rename(wd / "run" / "warm_from.nc")
+                continue
             f_.unlink()
+    elif fault == "warm_start_stop_not_after_restart_time":
+        import shutil  # noqa: PLC0415
+
+        (wd / "fault").mkdir(parents=True, exist_ok=True)
+        shutil.copy(wd / "base" / "out.nc", wd / "fault" / "warm_from.nc")
     if not res0.ok or nupd0 != b["ns"] or nrec0 == 0:
         return C.result([], sit, cnt, nontrivial=False, key=key, sample=desc, void=True, note=f"fault-free base did not run: {res0.exc}")
     sit["base_reversed" if b["reversed"] else "base_forward"] = 1
@@ -268,6 +321,8 @@ def run_case(case: dict[str, Any], wd: Path) -> dict[str, Any]:
     sit["subgrid_fault_with_negative_limits"] = int("negative" in fault or "minus" in fault)
     res, nupd, nwrite, nrec, present, status = one_run(copy.deepcopy(b), fault, wd / ("run" if shared else "fault"), case["subprocess"])
     sit["fault_written_over_a_valid_setup"] = int(shared)
+    sit["fault_in_a_version_1_configuration"] = int(fault.startswith("v1_") and present)
+    sit["fault_in_a_warm_started_setup"] = int(fault.startswith("warm_"))
     cnt["fault_runs"] = 1
     if not present:
         return C.result([], sit, cnt, nontrivial=False, key=key, sample=desc, void=True, note="fault not present in the generated files")
